@@ -115,7 +115,7 @@ AltAlphabet(t) ==
   \cup {F1("Print", 122), F0("Lf"), F0("Decsc"), F0("Decrc"), F0("Decstr"), F1("Ed", 2)}
 AltLeanAlphabet(t) ==
      {FS(f, <<m>>) : f \in {"Decset", "Decrst"}, m \in {1047, 1049}}
-  \cup {F2("Cup", a, 1) : a \in 1..t.rows} \cup {F1("Print", 122), F0("Lf")}
+  \cup {F2("Cup", a, 1) : a \in 1..t.rows} \cup {F1("Print", 122), F0("Lf"), F2("Decstbm", 1, t.rows - 1)}
 AltSizes == {<<2, 2>>, <<3, 2>>}
 AltFills == {<<>>, Labelled(4, 2), <<65, 65, 65, 65, 65>>}
 AltResizes(t) == {<<c, r>> \in {<<2, 2>>, <<2, 4>>, <<3, 3>>, <<1, 2>>, <<3, 1>>} : <<c, r>> # <<t.cols, t.rows>>}
